@@ -18,6 +18,8 @@ Engines
     assigned inside `while True:` persist); a script with anything after the main loop must be rejected with ValueError
     (repair of F-C05-postloop-in-setup / F-C05-second-main-loop-appended) - if one is accepted again it is compared
     with CPython like every other accepted script;
+  * animations started from helper functions (harness/props/c05_animfn.py, text level): the LCD contents after setup() and after
+    every pass must equal those of the inline spelling of the same script (each started animation ticked once per pass on its own state);
   * pin EXPRESSIONS (harness/props/c05_pinexpr.py, coq/Lang/EmitPin.v): straight-line scripts whose devices take `pin`, `pin + k`
     as pin arguments with the variable re-assigned between declarations; the EXECUTED firmware trace with numeric pins is compared
     with the model's and, inside the model's guard `pins_tracked`, judged by the configured-before-use monitor."""
@@ -28,6 +30,7 @@ import re
 from harness import common as C
 from harness import fw
 from harness.props import c05_pinexpr as PX
+from harness.props import c05_animfn as AF
 
 META = {
     "id": "C05",
@@ -2103,6 +2106,8 @@ def run(ctx: C.Ctx):
     pin_findings = [f for f in open_findings if f["witness"].get("family") == "pinexpr"]
     open_findings = [f for f in open_findings if f["witness"].get("family") != "pinexpr"]
     n_pin, pin_dist, pin_samples = PX.run_family(ctx, pin_findings)
+    # ---- animations started from helper functions: same display as the inline spelling after setup() and every pass
+    n_animfn = AF.run_family(ctx, thorough)
 
     # ---- known findings: replay the listed witnesses on the real code
     for f in open_findings:
@@ -2131,7 +2136,7 @@ def run(ctx: C.Ctx):
 
     n_inside = stats["in_guard_python"]
     ctx.coverage.update({
-        "evaluations": len(progs) + stats["monitor_runs"] + prefix_checked + n_matrix + n_pin,
+        "evaluations": len(progs) + stats["monitor_runs"] + prefix_checked + n_matrix + n_pin + n_animfn,
         "distinct_nontrivial": len({p["src"] for p in progs if any(it[0] == "main" for it in p["items"]) or p["cls"] == "nomain"}),
         "rule": "seeded structured scripts (classes below; nested blocks are if / if-else / for / while / try-except; classes looplocal_*: names first bound inside `while True:` (directly, behind an if, behind two header lines of if / for / while / try in every order) and accumulated from pass to pass; postloop / twoloops: statements / a second `while True:` after the main loop (must be rejected); classes prom_*: names first bound inside an if / else / for / while / try / except block of the prologue and re-assigned by plain assignments in `while True:`; brk_*: `break` behind every chain of if / else / try / except lines up to depth 2 (3 in the thorough tier), with and without an inner for / while; plus the text-level break placement matrix incl. elif / typed and multiple handlers / nested `while True:`); every script goes through real parse() (IR compared node by node with the model), real emit() + g++ + mock core for 3 passes (trace compared with the model's exec; extracted and Python monitors on the real trace; markers/values compared with CPython for every N in 0..3 by prefix, the prefix property itself checked on a sample). non-trivial = distinct script text.  Pin-expression family (coq/Lang/EmitPin.v): straight-line scripts with one or two int globals; Led / RGBLed / Ultrasonic / Buzzer / DCMotor / Button declared before the main loop and (hoisted kinds) at its top with pin arguments `v`, `v + k` or literals; the variable advanced (`v += w`, `v = v + w`, `v = u + 1`, `v = 6`) between declarations, inside the loop, before hoisted declarations; names re-bound to the same text; exhaustive over in-place kinds x {2,3 devices} x {commanded after each declaration, only the last}; real emit() + g++ + mock for 3 passes, numeric pinMode / access events compared with the model's executed trace and, inside the guard, judged by the monitor.",
         "samples": [progs[1]["src"], progs[4]["src"]] + pin_samples,
@@ -2159,6 +2164,7 @@ def run(ctx: C.Ctx):
                          "comment_only_lines": sum(p.get("comments", (0, 0))[1] for p in progs),
                          "fixed_entries_replayed_first": fixed_replayed,
                          "pin_expression_family": pin_dist,
+                         "animation_from_function_spellings_compared_with_inline": n_animfn,
                          "device_kinds_setup": sorted({d[0] for p in progs for d in p["devs"].values() if d[2] == "setup"}),
                          "device_kinds_loop": sorted({d[0] for p in progs for d in p["devs"].values() if d[2] == "loop"})},
         "exhaustive": False,
@@ -2175,7 +2181,7 @@ def run(ctx: C.Ctx):
                        "`elif` chains, several `except` clauses, typed handlers (`except E as e:`), a nested `while True:`: not in the Gallina model; they are in the text-level break placement matrix (parse() verdict and BreakStmt placement in the real Program for every chain of header lines up to depth 2, depth 3 sampled / exhaustive in the thorough tier)",
                        "`except` handlers never run (nothing in the generated fragment raises, in CPython as in C++): the model has them for the break guard, for promotion and for the IR only; exception semantics themselves are outside C05",
                        "a nested `while x:` is modelled with 64 iterations of fuel (a run that needs more sets the outside-the-model flag; generated loops count down from <= 3)",
-                       "`continue` (C01/C07), functions other than marker-only button handlers, functions reading globals",
+                       "`continue` (C01/C07), functions other than marker-only button handlers, functions reading globals; lcd.animate call sites inside helper functions are not in the Gallina model (C18's DLCDInject.v has them): text-level oracle c05_animfn.py (display after setup() and after each of 8 passes equals the inline spelling's, two animations per script, styles scroll / typewriter / blink, one or two helper functions in either definition order)",
                        "LCD / Buzzer / SerialMonitor declared inside `while True:` (not hoisted kinds; outside the quantifier)",
                        "expression layer (C01-C03): only int literals and `x + literal` are used", "timing: animations use speed_ms=0 so that every tick is observable",
                        "order of several names promoted out of one block (set iteration order, C10): generated blocks introduce at most one name"],
@@ -2218,6 +2224,8 @@ def replay(data):
     case = data.get("case") or {}
     if isinstance(case, dict) and case.get("family") in ("pinexpr", "pinexpr-servo"):
         return PX.replay(case)
+    if isinstance(case, dict) and case.get("family") == "animfn":
+        return AF.replay(case)
     src = case.get("src") if isinstance(case, dict) else (case if isinstance(case, str) else None)
     if not src:
         print("replay: no script in this file (proof failure: see the fields above)")
